@@ -12,4 +12,4 @@ CHECK_DEADLOCK FALSE
 INVARIANT Finished
 CONSTANT Checked = {${CHECKED:-}}
 EOC
-timeout 600 tlc -workers 1 -metadir /verif/.work/tv/md EsdtTrace.tla 2>&1 | grep -v "^Linting\|^Semantic\|^Parsing\|^TLC2\|^Running\|^Starting\|^Computing\|^Finished comp"
+JAVA_TOOL_OPTIONS=-Xss256m timeout 600 tlc -workers 1 -metadir /verif/.work/tv/md EsdtTrace.tla 2>&1 | grep -v "^Linting\|^Semantic\|^Parsing\|^TLC2\|^Running\|^Starting\|^Computing\|^Finished comp"
